@@ -20,7 +20,8 @@ EXPLANATION = (
     'requests only from that lookup; (GRD.2) a finite dataflow over the reply handler with the atoms '
     '"awaiting-mask bit of index i set" and "service name equals slot i\'s name" (reset when i changes) '
     'shows both hold at every effect: stores through request/client/service pointers and calls that '
-    'emit or re-evaluate; (WMC.2) the serial counter is only pre-incremented in the announce handler '
+    'emit or re-evaluate; (GRD.3) the lookup loop passes over a slot only because it is not awaited, empty or '
+    'named differently; (WMC.2) the serial counter is only pre-incremented in the announce handler '
     'and a request\'s serial is assigned only from it; (WIRE.1) the unlinked slot enters through the '
     'same handler.  strtol leniency is noted, not claimed.')
 ASSUMPTIONS = ['clang 14 CFG', 'strtol/strtoul(base 16) accept exactly what %x prints plus lenient forms the daemon never emits']
@@ -145,6 +146,14 @@ def effects_guarded(P, R, cl):
                     if vs:
                         idxv = sorted(vs)[0]
         if idxv is None:
+            # no test of a client mask bit at all: if the function walks the service table and has effects,
+            # take the table subscript as the slot index so that every effect is reported as unguarded
+            for s in f.sites():
+                for ex in rules.event_exprs(s.ev):
+                    for x in walk(ex):
+                        if x.get('k') == 'idx' and any(y.get('k') == 'mem' and y['field'] == 'vec' for y in walk(x['base'])) and vars_in(x['index']):
+                            idxv = sorted(vars_in(x['index']))[0]
+        if idxv is None:
             continue
         ptrs = set()
         for s in f.sites():
@@ -221,6 +230,52 @@ def effects_guarded(P, R, cl):
     R.floor('C04.GRD.2', 10, 'effects of a reply')
 
 
+def lookup_skips(P, R, cl, rule='C04.GRD.3'):
+    """The search for the answering service may pass over a slot only because its awaited bit is clear,
+    the slot is empty, or the name differs; any other reason (e.g. the service no longer being
+    configured) would drop a reply that is owed."""
+    n = 0
+    for f in cl.values():
+        idxv = None
+        tests = []
+        for b in f.blocks.values():
+            c = (b.get('term') or {}).get('cond')
+            for x in walk(c):
+                if x.get('k') == 'bin' and x['op'] in ('&', '>>') and any(y.get('k') == 'mem' and y['field'].endswith('_mask') for y in walk(x['l'])):
+                    vs = vars_in(x['r'])
+                    if vs:
+                        idxv = sorted(vs)[0]
+        if idxv is None:
+            continue
+        incs = {s.bid for s in f.stores() if s.ev['k'] == 'store' and is_var(s.ev.get('lhs'), idxv) and s.ev.get('op') == '++'}
+        live = f.reachable_blocks()
+        # the loop body: blocks between the loop head and the increment
+        edges = []
+        for bid in live:
+            for e in f.out[bid]:
+                if e.dst in incs and bid not in incs:
+                    if e.label == 'fall' and not f.block_sites(bid):
+                        edges.extend(x for x in f.inn[bid] if x.src in live)
+                    else:
+                        edges.append(e)
+        for e in edges:
+            r = rules.edge_rel(e)
+            why = None
+            if r:
+                l, op, rr = r
+                if isinstance(l, dict) and l.get('k') == 'bin' and l['op'] == '&' and is_field(l['l'], holds.MASK) and op == '==' and const_of(rr) == 0:
+                    why = 'the service is not awaited'
+                elif is_var(l) and l.get('t', '').startswith('struct iauth_xquery_service') and op == '==' and const_of(rr) == 0:
+                    why = 'the slot is empty'
+                elif isinstance(l, dict) and l.get('k') == 'callref' and l.get('callee') in ('strcmp', 'strcasecmp') and op == '!=' and const_of(rr) == 0:
+                    why = 'the name differs'
+            n += 1
+            R.ob(rule, why is not None, P.relloc((f.blocks[e.src].get('term') or {}).get('loc', '?')),
+                 'the reply lookup passes over a slot only for a documented reason (%s)' % (why or 'edge %s' % e.describe()), key='lookup-skip:%s' % (why or e.describe()))
+            R.obligations[-1]['function'] = f.name
+    R.floor(rule, 2, 'skip edges of the reply lookup')
+
+
 def serial_writers(P, R):
     rd, disp = core.reader_dispatch(P)
     announce = [h for (s, h, vs) in disp if vs and ord('C') in vs]
@@ -246,5 +301,6 @@ def run(P, R, tier):
     validated_return(P, R, r, sepch, idv, serv)
     cl = lookup_discipline(P, R)
     effects_guarded(P, R, cl)
+    lookup_skips(P, R, cl)
     serial_writers(P, R)
     return EXPLANATION, ASSUMPTIONS
